@@ -96,6 +96,7 @@ CONST_GROUPS = {
     "license": "internal/security/license",
     "mqtt": "internal/network/mqtt",
     "message": "internal/message",
+    "security": "internal/security",
     "cluster": "internal/service/cluster",
 }
 
